@@ -1,8 +1,24 @@
 /-
-Model of the Elasticsearch bulk loop (C15), mirroring pkg/es/writer/esBulkHandler.go HandleBulkBody
-lines 156-262 (after the two `fix:` commits: loop exit only when the body is exhausted; oversize flag per action, 413 counts as error): per-line action parsing, per-item status, the flags `success`, `overallError`,
-`maxRecordSizeExceeded` with their ACTUAL lifetimes, and the loop-exit test on the remaining bytes.
-A body is the list of its lines (split at '\n'); each line is abstracted to what the loop looks at.
+Model of the Elasticsearch bulk handler (C15), mirroring pkg/es/writer/esBulkHandler.go HandleBulkBody
+(after the two `fix:` commits: loop exit only when the body is exhausted; oversize flag per action, 413 counts as error).
+
+Part 1, lines 156-263 — the per-line loop: action parsing, per-item status, the flags `success`,
+`overallError`, `maxRecordSizeExceeded` with their ACTUAL lifetimes, the loop-exit test on the remaining bytes,
+the index-name gate (`vtable.IsValidIndexName`) and the slice `allPLEs` of accepted documents, each carrying the
+index name of ITS action (`ple.GetIndexName()`).
+Part 2, lines 265-277 + ProcessIndexRequestPle (lines 369-425) — what happens to the accepted documents after the
+loop: `utils.ConvertSliceToMap(allPLEs, GetIndexName)` groups them into one batch per index name (each batch in
+slice order), every batch is handed to `ProcessIndexRequestPle`, which re-checks that every event of the batch
+carries the batch's index name, re-checks the name, resolves an alias to the real index
+(`AddAndGetRealIndexName`) and calls the store (`writer.AddEntryToInMemBuf`).  An error of that call is ONLY
+LOGGED (line 274, `// TODO: update atleastOneSuccess`): the items and the `errors` flag were fixed in the loop.
+The store is a PARAMETER (`Env.store`), so are the index-name predicate and the alias table.
+Go iterates the map of batches in arbitrary order; the model lists the batches in order of first occurrence —
+every theorem is per index, and the suites print per index.
+
+A body is the list of its lines (split at '\n'); each line is abstracted to what the loop looks at.  An index
+name is a number (its slot in the request's table of names).  `.kibana` index names (a hook-only path that never
+produces a PLE) are outside the model.
 Core Lean only.
 -/
 namespace SigModel.Bulk
@@ -16,7 +32,8 @@ structure Line where
   kind  : Kind      -- how the line classifies when read in action position
   len   : Nat       -- byte length
   docOk : Bool      -- `GetNewPLE` accepts it when read in document position
-  id    : Nat       -- identity of the document (for `stored`)
+  id    : Nat       -- identity of the document (for `ples`)
+  idx   : Nat       -- index name the line carries when read in action position (`_index`; absent = a name of its own)
 deriving Repr, DecidableEq
 
 inductive Status where
@@ -25,9 +42,15 @@ inductive Status where
   | tooLarge  -- 413
 deriving Repr, DecidableEq
 
+/-- what the handler's surroundings decide: the parameters of the model -/
+structure Env where
+  valid   : Nat → Bool                -- `vtable.IsValidIndexName` on the index name
+  resolve : Nat → Nat                 -- `AddAndGetRealIndexName`: an alias is replaced by its index, any other name is kept
+  store   : Nat → List Nat → Bool     -- `writer.AddEntryToInMemBuf(real index, documents)`: true = no error
+
 /-- `utils.ReadLine` on the list-of-lines view: returns the line and the rest -/
 def readLine : List Line → Line × List Line
-  | [] => ({ kind := .other, len := 0, docOk := false, id := 0 }, [])
+  | [] => ({ kind := .other, len := 0, docOk := false, id := 0, idx := 0 }, [])
   | l :: r => (l, r)
 
 /-- `len(remainingPostBody) == 0`: no bytes remain — nothing, or a single empty line -/
@@ -40,8 +63,8 @@ structure St where
   overallError : Bool := false
   success : Bool := false
   maxExceeded : Bool := false
-  items : List Status := []      -- in order
-  stored : List Nat := []        -- ids handed to ProcessIndexRequestPle, in order
+  items : List Status := []          -- in order
+  ples : List (Nat × Nat) := []      -- allPLEs: (index name of the action, document id), in order
   processed : Nat := 0
 deriving Repr, DecidableEq
 
@@ -49,16 +72,17 @@ deriving Repr, DecidableEq
 def maxRecordSize : Nat := 63000
 
 /-- one iteration of the `for` loop after the exit test (`maxRecordSizeExceeded` is reset per action) -/
-def stepAction (s0 : St) (line : Line) (rest : List Line) : St × List Line :=
+def stepAction (env : Env) (s0 : St) (line : Line) (rest : List Line) : St × List Line :=
   let s := { s0 with maxExceeded := false }
   let (s1, rest1) : St × List Line :=
     match line.kind with
     | .index | .create =>
       let (doc, rest') := readLine rest
       if doc.len == 0 && remEmpty rest' then ({ s with success := false }, rest')
+      else if !env.valid line.idx then ({ s with success := false }, rest')
       else if doc.len < maxRecordSize then
         let s' := { s with processed := s.processed + 1, success := true }
-        if doc.docOk then ({ s' with stored := s'.stored ++ [doc.id] }, rest')
+        if doc.docOk then ({ s' with ples := s'.ples ++ [(line.idx, doc.id)] }, rest')
         else ({ s' with success := false }, rest')
       else ({ s with success := false, maxExceeded := true }, rest')
     | .update =>
@@ -70,16 +94,72 @@ def stepAction (s0 : St) (line : Line) (rest : List Line) : St × List Line :=
     else ({ s1 with overallError := true, items := s1.items ++ [.failed] }, rest1)
   else ({ s1 with items := s1.items ++ [.created] }, rest1)
 
-def loop : Nat → St → List Line → St
+def loop (env : Env) : Nat → St → List Line → St
   | 0, s, _ => s
   | fuel+1, s, body =>
     let (line, rest) := readLine body
     if line.len == 0 && remEmpty rest then s
     else
-      let (s', rest') := stepAction s line rest
-      loop fuel s' rest'
+      let (s', rest') := stepAction env s line rest
+      loop env fuel s' rest'
 
-/-- `HandleBulkBody` on a body given as its lines -/
-def handle (body : List Line) : St := loop (body.length + 1) {} body
+/-- the loop of `HandleBulkBody` on a body given as its lines -/
+def handle (env : Env) (body : List Line) : St := loop env (body.length + 1) {} body
+
+/-! ### after the loop: batches per index, ProcessIndexRequestPle, the store -/
+
+/-- the distinct values of a list in order of first occurrence (the keys of the map `ConvertSliceToMap` builds) -/
+def keysOf : List Nat → List Nat
+  | [] => []
+  | k :: r => k :: (keysOf r).filter (· != k)
+
+/-- `utils.ConvertSliceToMap(allPLEs, ple.GetIndexName)`: per index name the events carrying it, in slice order -/
+def batches (ples : List (Nat × Nat)) : List (Nat × List (Nat × Nat)) :=
+  (keysOf (ples.map (·.1))).map (fun k => (k, ples.filter (·.1 == k)))
+
+/-- how a call of `ProcessIndexRequestPle` ends -/
+inductive PleResult where
+  | mismatch                 -- an event of the batch carries another index name: whole batch rejected, nothing stored
+  | invalidIndex             -- the batch's index name is not a valid name: nothing stored
+  | stored (real : Nat)      -- handed to the store under `real`, the store took it
+  | refused (real : Nat)     -- handed to the store under `real`, the store returned an error
+deriving Repr, DecidableEq
+
+/-- `ProcessIndexRequestPle(indexNameIn, pleArray)` -/
+def processPle (env : Env) (idx : Nat) (batch : List (Nat × Nat)) : PleResult :=
+  if batch.any (·.1 != idx) then .mismatch
+  else if !env.valid idx then .invalidIndex
+  else
+    let real := env.resolve idx
+    if env.store real (batch.map (·.2)) then .stored real else .refused real
+
+/-- one iteration of `for indexName, plesInBatch := range pleBatches` -/
+structure Call where
+  idx  : Nat                   -- the index name the batch is processed under
+  docs : List (Nat × Nat)      -- the events of the batch, each with the index name IT carries
+  res  : PleResult
+deriving Repr, DecidableEq
+
+structure Resp where
+  st    : St                   -- `items`, `errors` and `processedCount` are those of the loop: no call changes them
+  calls : List Call
+
+/-- `HandleBulkBody` -/
+def handleReq (env : Env) (body : List Line) : Resp :=
+  let st := handle env body
+  { st := st, calls := (batches st.ples).map (fun kb => { idx := kb.1, docs := kb.2, res := processPle env kb.1 kb.2 }) }
+
+def Call.accepted (c : Call) : Bool :=
+  match c.res with
+  | .stored _ => true
+  | _ => false
+
+/-- the documents the store took for request index name `x`, in the order it got them -/
+def Resp.storedUnder (r : Resp) (x : Nat) : List Nat :=
+  ((r.calls.filter (fun c => c.idx == x && c.accepted)).flatMap (·.docs)).map (·.2)
+
+/-- everything handed to `ProcessIndexRequestPle` under index name `x` -/
+def Resp.handedUnder (r : Resp) (x : Nat) : List (Nat × Nat) :=
+  (r.calls.filter (·.idx == x)).flatMap (·.docs)
 
 end SigModel.Bulk
